@@ -198,6 +198,41 @@ def run(tier):
                     or "mismatch" in (o["scenario"]["cfg"]["fpC"], o["scenario"]["cfg"]["fpS"]):
                 nontrivial.add(o["id"])
 
+    # 3b. PeerConnection level: the expected fingerprint as set_remote_description extracts it from the answer's
+    #     a=fingerprint attributes (session level / media level, presentations of the genuine digest, foreign and
+    #     near-miss digests, conflicts, unsupported algorithm, none). SdpFingerprint.tla states the contract and TLC
+    #     enumerates every placement; each runs between two real PeerConnections (the offerer is the DTLS client).
+    cs = os.path.join(d, "sdp_cases.ndjson")
+    rsdp = vlib.tlc("SdpFingerprint", "SdpFingerprint.cfg", workers=1, timeout=300, tags=("CASE",), sinks={"CASE": cs},
+                    tag="c02_sdp")
+    vlib.tlc_ok(rsdp, "SdpFingerprint")
+    ck.add_tlc(rsdp, "sdp_fingerprint")
+    cases = {}
+    for c in vlib.read_ndjson(cs):
+        cases[f"sdp-{c['session']}-{c['media']}"] = c
+    os.remove(cs)
+    pc_cases = [dict(c, id=k) for k, c in sorted(cases.items())]
+    pc_out = dc.run_scenarios(ck, pc_cases, tier + "_pc", nproc=8, timeout=900, sub="pc")
+    pc_connected = 0
+    for o in pc_out:
+        c = o["case"]
+        base = {"id": o["id"], "case": c, "scenario": dict(c, pc=True)}
+        if "panic" in o:
+            ck.divergence({"sub": "dtls", "rule": "NoPanic", "level": "pc"}, dict(base, panic=o["panic"]))
+            continue
+        ob = o["obs"]
+        exp = c["expected"]
+        pc_connected += 1 if ob["connected"] else 0
+        if (ob["connected"] or "A" in ob.get("dtls_connected", [])) and exp != "Connected":
+            ck.divergence({"sub": "dtls", "rule": "ClientAuthenticatesServer", "role": "client", "by": "sdp",
+                           "session": c["session"], "media": c["media"]}, dict(base, obs=ob))
+        elif exp == "Connected" and not ob["connected"]:
+            ck.drift.append({"rule": "GenuineFingerprintConnects", "case": c, "obs": {k: ob.get(k) for k in ("set_remote", "state_A", "dtls_failed")}})
+        elif exp == "Rejected" and ob.get("set_remote") == "ok":
+            ck.drift.append({"rule": "AmbiguousFingerprintRefused", "case": c, "obs": {k: ob.get(k) for k in ("set_remote", "state_A", "dtls_failed")}})
+    ck.notes.append(f"PeerConnection level: {len(pc_out)} a=fingerprint placements executed, {pc_connected} connected "
+                    f"(exactly those the contract allows unless reported)")
+
     # 4. trace validation: every step of every recorded run is a step of the specification (rule Auth: Connected
     #    and the cert / ske events only in states where the specification has authenticated the peer)
     #    Runs in which the outcome oracle has already reported the server-role finding are validated with the
@@ -223,8 +258,8 @@ def run(tier):
             ck.drift.append({"rule": rj["rule"], "event": rj["event"], "id": rj["id"], "cfg": sc["cfg"], "ops": sc.get("tlc_ops")})
 
     dc.finish_validation(ck)
-    ck.cov["traces_validated_against_impl"] = len(outcomes) + accepted
-    ck.cov["evaluations"] = len(outcomes)
+    ck.cov["traces_validated_against_impl"] = len(outcomes) + accepted + len(pc_out)
+    ck.cov["evaluations"] = len(outcomes) + len(pc_out)
     ck.cov["distinct_nontrivial"] = len(nontrivial)
     ck.cov["rule"] = ("a case = (expected fingerprint of client and of server in none/match/mismatch, certificate each endpoint "
                       "really holds, adversary schedule printed by TLC) executed by the rewriting proxy between two real "
@@ -256,6 +291,13 @@ def replay(path):
     with open(path) as f:
         rec = json.load(f)["record"]
     sc = rec["scenario"]
+    if sc.get("pc"):
+        o = dc.run_scenarios(ck, [dict(sc, id="replay")], "replay_pc", nproc=1, sub="pc")[0]
+        if "panic" not in o and (o["obs"]["connected"] or "A" in o["obs"].get("dtls_connected", [])) and sc.get("expected") != "Connected":
+            ck.divergence({"sub": "dtls", "rule": "ClientAuthenticatesServer", "role": "client", "by": "sdp",
+                           "session": sc["session"], "media": sc["media"]}, {"scenario": sc, "obs": o["obs"]})
+        ck.cov.update(states=1, transitions=1, traces_validated_against_impl=1, samples=[sc])
+        ck.finish()
     outcomes = dc.run_scenarios(ck, [sc], "replay", nproc=1)
     for o in outcomes:
         divs, _ = evaluate(o, {})
